@@ -55,6 +55,9 @@ pub enum Op {
     Append { #[serde(with = "hexser")] tail: Vec<u8> },
     /// the empty file and all files of 1-3 bytes built from interesting bytes
     Tiny,
+    /// a stream that is well-formed up to a reference reaching exactly one byte before the
+    /// start of the output, after n produced bytes (n up to the 4096-byte window edge)
+    BackrefEdge { lz11: bool, wrapped: bool, seed: u64 },
     /// one explicit case (what a violation inside an enumerating operation is reduced to)
     Raw { entry: String, #[serde(with = "hexser")] bytes: Vec<u8> },
 }
@@ -426,6 +429,21 @@ fn exec(ctx: &mut RunCtx, w: &mut World, op: &Op) -> Step<()> {
             ctx.outcome("tiny", "ok", "");
             Ok(())
         }
+        Op::BackrefEdge { lz11, wrapped, seed } => {
+            let mut r = Rng::new(*seed);
+            for n in [1usize, 2, 3, 7, 8, 9, 17, 18, 255, 256, 1000, 4093, 4094, 4095] {
+                // n literals, then a copy whose displacement is n + 1 (only n bytes exist)
+                let mut t: Vec<Token> = (0..n).map(|_| Token::Lit(r.next() as u8)).collect();
+                t.push(Token::Ref(3, n + 1));
+                t.push(Token::Lit(0x55));
+                let inner = lz::encode_tokens(&t, *lz11, 0);
+                let bytes = if *wrapped { lz::wrap_lz13(&inner, 1) } else { inner };
+                all_entries(ctx, w, &bytes, true, 4)?;
+            }
+            ctx.fault("backref_one_before_start");
+            ctx.outcome("backref_edge", "ok", "");
+            Ok(())
+        }
         Op::Raw { entry, bytes } => {
             let b = bytes.clone();
             case(ctx, w, entry, &b, true)?;
@@ -479,6 +497,9 @@ fn run(cfg: &Value, ctx: &mut RunCtx) -> Step<()> {
         let mut r = Rng::sub(ctx.run_seed, "ops");
         if r.chance(1, 8) {
             planned.push(Op::Tiny);
+        }
+        if r.chance(1, 6) {
+            planned.push(Op::BackrefEdge { lz11: r.chance(1, 2), wrapped: r.chance(1, 2), seed: r.next() });
         }
         let files = if big { 1 } else { r.range(1, 3) };
         for _ in 0..files {
